@@ -348,8 +348,8 @@ func replaceOp(name string, core bool, not Kind, mk func() *Node) Op {
 	}}
 }
 
-// Heavy selects the large variants (70 kB / 400 kB strings, nesting depth 2500): set by thorough tiers. The light variants keep the
-// same classes at sizes whose processing cost stays far below a watchdog even in code that is quadratic in the input size.
+// Heavy selects larger variants (20-30 kB strings, nesting depth 2500): set by thorough tiers. Sizes are kept where code that is quadratic in
+// the input size (base58 decoding, big number formatting) still finishes far below a watchdog: slow is not what the checks look for.
 var Heavy = false
 
 func long(light, heavy int) int {
@@ -371,7 +371,7 @@ var numberVariants = []string{"-1", "0", "0.5", "1e308", "1e400", "-1e400", "922
 
 // StringVariants returns hostile replacements for a string value, chosen by what the value looks like and by its member name.
 func StringVariants(key, v string) []string {
-	out := []string{"", " ", "\x00", "\xff\xfe", "\xed\xa0\x80", strings.Repeat("A", long(8000, 70000)), "%zz", "%00", "null", "true", "123", "[]", "{}",
+	out := []string{"", " ", "\x00", "\xff\xfe", "\xed\xa0\x80", strings.Repeat("A", long(8000, 20000)), "%zz", "%00", "null", "true", "123", "[]", "{}",
 		v + v, "‮" + v, strings.ToUpper(v)}
 	if len(v) > 1 {
 		out = append(out, v[:len(v)/2], v[1:], v[:len(v)-1])
@@ -380,16 +380,16 @@ func StringVariants(key, v string) []string {
 	switch {
 	case strings.HasPrefix(v, "did:"):
 		out = append(out, "did:", "did:web:", "did:nuts:", "did:key:z", "did:key:", "did:jwk:e30", "did:x509:0:sha256:", "did:web:%zz", v+"#", v+"#a#b", v+"?x=%zz", v+"/", "DID:"+v[4:],
-			strings.Replace(v, ":", "::", 1), v+":"+strings.Repeat("a:", long(500, 2000)))
+			strings.Replace(v, ":", "::", 1), v+":"+strings.Repeat("a:", long(500, 1000)))
 	case strings.Contains(v, "://"):
 		out = append(out, "http://[::1", "https://%zz", "://", "https://", "https://a b/", "https://user:pw@host/", "https://host:99999/", "https://host/%", "javascript:alert(1)",
-			"file:///etc/passwd", "https://"+strings.Repeat("a", long(8000, 70000)), v+"#"+strings.Repeat("#", 10), strings.Replace(v, "://", ":", 1), "//host/path", "https:/host", v+"?%zz", "\nhttps://x")
+			"file:///etc/passwd", "https://"+strings.Repeat("a", long(8000, 20000)), v+"#"+strings.Repeat("#", 10), strings.Replace(v, "://", ":", 1), "//host/path", "https:/host", v+"?%zz", "\nhttps://x")
 	case len(v) >= 10 && v[4] == '-' && strings.Contains(v, "T"):
 		out = append(out, "0000-00-00T00:00:00Z", "9999-12-31T23:59:59Z", "2020-13-45T99:99:99Z", "2020-01-01", "2020-01-01T00:00:00", "-2020-01-01T00:00:00Z", "2020-01-01T00:00:00+99:99",
 			"0001-01-01T00:00:00Z", "292277026596-12-04T15:30:07Z", "2020-01-01T00:00:00.9999999999999999999Z")
 	case strings.HasPrefix(v, "$"):
 		out = append(out, "$", "$.", "$..*", "$[", "$[?(@.a)]", "$.a[99999999999]", "$['a','b']", "$..[(1+1)]", "$[-1]", "$[0:1000000000]", "$[*]", "$..", "$.verifiableCredential[-1]",
-			"$.verifiableCredential[18446744073709551616]", "$[?(@.x =~ /(a+)+$/)]", "@", "$.a.b.c.d.e", "$[0][0][0]", "$"+strings.Repeat(".a", long(800, 5000)), "$[(", "$.*.*.*.*.*.*.*.*")
+			"$.verifiableCredential[18446744073709551616]", "$[?(@.x =~ /(a+)+$/)]", "@", "$.a.b.c.d.e", "$[0][0][0]", "$"+strings.Repeat(".a", long(800, 2000)), "$[(", "$.*.*.*.*.*.*.*.*")
 	case strings.Count(v, ".") == 2 && len(v) > 40:
 		// compact JWS/JWT
 		p := strings.Split(v, ".")
@@ -407,7 +407,7 @@ func StringVariants(key, v string) []string {
 	case lk == "statuslistindex" || lk == "lc" || lk == "ver":
 		out = append(out, "-1", "0", "131072", "9223372036854775808", "1e3", "0x10", " 1", "1 ", "+1")
 	case lk == "encodedlist" || lk == "proofvalue" || lk == "jws" || lk == "x" || lk == "y" || lk == "n" || lk == "e" || lk == "publickeybase58" || lk == "publickeymultibase":
-		out = append(out, "=", "====", "A", "AA", "AAA=", "H4sIAAAAAAAA", "H4sIAAAAAAAA_wMAAAAAAAAAAAA", "!!!!", v+"=", "z", "zz", "u", "mAAAA", strings.Repeat("A", 4*long(5000, 100000)))
+		out = append(out, "=", "====", "A", "AA", "AAA=", "H4sIAAAAAAAA", "H4sIAAAAAAAA_wMAAAAAAAAAAAA", "!!!!", v+"=", "z", "zz", "u", "mAAAA", strings.Repeat("A", 4*long(5000, 7500)))
 	}
 	return out
 }
